@@ -362,15 +362,15 @@ std::string Emu::describe(uint32_t w, uint64_t pc) {
 	case K_BFM: return fmt("bfm %s, %s, #%u, #%u", X(o.rd).c_str(), X(o.rn).c_str(), o.c, o.d);
 	case K_UBFM: return fmt("ubfm %s, %s, #%u, #%u", X(o.rd).c_str(), X(o.rn).c_str(), o.c, o.d);
 	case K_EXTR: return fmt("extr %s, %s, %s, #%lld", X(o.rd).c_str(), X(o.rn).c_str(), X(o.rm).c_str(), (long long)o.imm);
-	case K_ADR: return fmt("adr %s, #%lld", X(o.rd).c_str(), (long long)(pc + o.imm));
-	case K_B: return fmt("b #%lld", (long long)(pc + o.imm));
-	case K_BL: return fmt("bl #%lld", (long long)(pc + o.imm));
-	case K_BCOND: return fmt("b.%s #%lld", cc[o.a], (long long)(pc + o.imm));
+	case K_ADR: return fmt("adr %s, #%lld", X(o.rd).c_str(), (long long)o.imm);
+	case K_B: return fmt("b #%llu", (unsigned long long)(pc + o.imm));
+	case K_BL: return fmt("bl #%llu", (unsigned long long)(pc + o.imm));
+	case K_BCOND: return fmt("b.%s #%llu", cc[o.a], (unsigned long long)(pc + o.imm));
 	case K_RET: return fmt("ret %s", X(o.rn).c_str());
 	case K_MRS_FPCR: return fmt("mrs %s, fpcr", X(o.rd).c_str());
 	case K_MSR_FPCR: return fmt("msr fpcr, %s", X(o.rd).c_str());
-	case K_LDR_LIT_X: return fmt("ldr %s, #%lld", X(o.rd).c_str(), (long long)(pc + o.imm));
-	case K_LDR_LIT_Q: return fmt("ldr q%u, #%lld", o.rd, (long long)(pc + o.imm));
+	case K_LDR_LIT_X: return fmt("ldr %s, #%llu", X(o.rd).c_str(), (unsigned long long)(pc + o.imm));
+	case K_LDR_LIT_Q: return fmt("ldr q%u, #%llu", o.rd, (unsigned long long)(pc + o.imm));
 	case K_LDP_X: return fmt("ldp %s, %s, %s", X(o.rd).c_str(), X(o.ra).c_str(), mem(o, o.a).c_str());
 	case K_STP_X: return fmt("stp %s, %s, %s", X(o.rd).c_str(), X(o.ra).c_str(), mem(o, o.a).c_str());
 	case K_LDPSW: return fmt("ldpsw %s, %s, %s", X(o.rd).c_str(), X(o.ra).c_str(), mem(o, 2).c_str());
@@ -405,7 +405,7 @@ std::string Emu::describe(uint32_t w, uint64_t pc) {
 	case K_MADD: return fmt("madd %s, %s, %s, %s", X(o.rd).c_str(), X(o.rn).c_str(), X(o.rm).c_str(), X(o.ra).c_str());
 	case K_UMULH: return fmt("umulh %s, %s, %s", X(o.rd).c_str(), X(o.rn).c_str(), X(o.rm).c_str());
 	case K_SMULH: return fmt("smulh %s, %s, %s", X(o.rd).c_str(), X(o.rn).c_str(), X(o.rm).c_str());
-	case K_RORV: return fmt("rorv %s, %s, %s", X(o.rd).c_str(), X(o.rn).c_str(), X(o.rm).c_str());
+	case K_RORV: return fmt("ror %s, %s, %s", X(o.rd).c_str(), X(o.rn).c_str(), X(o.rm).c_str());
 	case K_RBIT: return fmt("rbit %s, %s", X(o.rd).c_str(), X(o.rn).c_str());
 	case K_INS_GEN: return fmt("ins v%u.%c[%u], %s", o.rd, o.a == 3 ? 'd' : 's', o.b, xr(o.rn, o.a == 3, false).c_str());
 	case K_INS_ELEM: return fmt("ins v%u.d[%u], v%u.d[%u]", o.rd, o.a, o.rn, o.b);
